@@ -41,6 +41,7 @@ type countingCtx struct {
 	closed chan struct{}
 	open   chan struct{}
 	cancel context.CancelCauseFunc
+	early  bool
 }
 
 // errCustomCause is the cause used by the "cause" cancel kind (context.WithCancelCause).
@@ -74,6 +75,12 @@ func (c *countingCtx) Done() <-chan struct{} {
 
 func (c *countingCtx) Err() error {
 	if c.k >= 0 && c.calls > c.k {
+		return c.kind
+	}
+	if c.early && c.k >= 0 && c.calls >= c.k {
+		// "async" kind: the context ended between two polls — Err() already reports it, the next
+		// Done() will too. Code that consults Err() on its own (instead of polling Done()) and then
+		// stops quietly returns a truncated result where the next poll would have reported the end.
 		return c.kind
 	}
 	return nil
@@ -286,8 +293,10 @@ func runExec(p *path.Path, doc any, vars map[string]any, c *execCase) (res J) {
 			kind = errCustomCause
 		}
 	}
+	early := c.Kind == "async"
 	base := types.ContextWithTZ(context.Background(), zoneFor(c.ZoneID))
 	cctx := newCountingCtx(base, k, kind)
+	cctx.early = early
 	var ctx context.Context = cctx
 
 	if kind == errCustomCause {
@@ -405,6 +414,59 @@ func aliasEqual(v any, seen map[string]any) any {
 	return v
 }
 
+// nilEmpties replaces every empty array by a nil []any and every empty object by a nil map.
+func nilEmpties(v any) any {
+	switch x := v.(type) {
+	case []any:
+		if len(x) == 0 {
+			return []any(nil)
+		}
+		for i := range x {
+			x[i] = nilEmpties(x[i])
+		}
+		return x
+	case map[string]any:
+		if len(x) == 0 {
+			return map[string]any(nil)
+		}
+		for k, e := range x {
+			x[k] = nilEmpties(e)
+		}
+		return x
+	}
+	return v
+}
+
+// staticBack is backing storage outside the heap: a document array living here is far (≥ 10^10
+// bytes) from the heap objects it holds, which is legitimate and must not change what .keyvalue()
+// returns apart from the address-derived part of the ids.
+var staticBack [64]any
+
+// zeroIDs masks keyvalue ids completely.
+func zeroIDs(v any) any {
+	switch x := v.(type) {
+	case []any:
+		out := make([]any, len(x))
+		for i, e := range x {
+			out[i] = zeroIDs(e)
+		}
+		return out
+	case map[string]any:
+		out := make(map[string]any, len(x))
+		for k, e := range x {
+			out[k] = zeroIDs(e)
+		}
+		if _, ok := out["id"].(int64); ok && len(out) == 3 {
+			out["id"] = int64(0)
+			if _, isInt := out["value"].(int64); isInt && out["key"] == "id" {
+				out["value"] = int64(0)
+			}
+		}
+		return out
+	}
+	return v
+}
+
 func spareOK(v any) bool {
 	switch v := v.(type) {
 	case []any:
@@ -438,6 +500,41 @@ func runExecPure(p *path.Path, doc any, vars map[string]any, c *execCase, docB, 
 		a, b := rawKVIDs(p, doc, vars, c), rawKVIDs(p, doc, vars, c)
 		if !reflect.DeepEqual(a, b) {
 			return J{"out": "unstable-keyvalue-ids"}
+		}
+	}
+	if arr, ok := doc.([]any); ok && c.Cancel == nil && c.Entry == "query" && len(arr) > 0 && len(arr) <= len(staticBack) && strings.Contains(c.Path, "keyvalue") && !strings.Contains(c.Path, ".id") {
+		// C16: the same document with its top-level array in static storage gives the same triples
+		copy(staticBack[:], arr)
+		opts := []exec.Option{}
+		if vars != nil {
+			opts = append(opts, exec.WithVars(exec.Vars(vars)))
+		}
+		if c.Silent {
+			opts = append(opts, exec.WithSilent())
+		}
+		if c.UseTZ {
+			opts = append(opts, exec.WithTZ())
+		}
+		bctx := types.ContextWithTZ(context.Background(), zoneFor(c.ZoneID))
+		i1, e1 := func() (r []any, e error) {
+			defer func() {
+				if recover() != nil {
+					e = errors.New("panic")
+				}
+			}()
+			return p.Query(bctx, any(staticBack[:len(arr)]), opts...)
+		}()
+		i2, e2 := func() (r []any, e error) {
+			defer func() {
+				if recover() != nil {
+					e = errors.New("panic")
+				}
+			}()
+			return p.Query(bctx, doc, opts...)
+		}()
+		clear(staticBack[:])
+		if (e1 == nil) != (e2 == nil) || (e1 == nil && !bytes.Equal(marshal(encItem(zeroIDs(any(i1)))), marshal(encItem(zeroIDs(any(i2)))))) {
+			return J{"out": "keyvalue-depends-on-document-location"}
 		}
 	}
 	if !bytes.Equal(docB, marshal(encItem(doc))) {
@@ -791,6 +888,13 @@ func execStream(args []string) int {
 		if vars != nil {
 			vars = withSpare(any(vars)).(map[string]any)
 		}
+		if grp%4 == 3 {
+			// empty containers as nil Go slices / maps (what `var xs []any` gives): still an empty array / object
+			doc = nilEmpties(doc)
+			for k, v := range vars {
+				vars[k] = nilEmpties(v)
+			}
+		}
 		if grp%2 == 1 {
 			seen := map[string]any{}
 			doc = aliasEqual(doc, seen)
@@ -845,7 +949,7 @@ func execStream(args []string) int {
 					}
 					for k := 0; k <= polls; k++ {
 						kk := k
-						kind := []string{"canceled", "deadline", "cause"}[(k+grp)%3]
+						kind := []string{"canceled", "deadline", "cause", "async"}[(k+grp)%4]
 						emit(entry, silent, &kk, kind)
 					}
 				}
